@@ -177,6 +177,40 @@ def check_one(desc, tier, acc):
             acc.violations.append(Violation("%s/any-extraction/source-changed-full-observation" % desc["kind"],
                                             "full observation of the source changed after the extractions: %s" % (C.show(desc),),
                                             dict(base, detour=detour, sel="ALL"), size=len(desc["edges"])))
+        # the same object after an in-place change: every extraction has been computed on it once; a hyperedge towards a new node
+        # is added and every extraction is computed again (nothing may be remembered across the change)
+        if detour is False and desc["nodes"]:
+            n0 = desc["nodes"][0]
+            xn = "zz8" if isinstance(n0, str) else 10 ** 6 + 1
+            ne = tuple(sorted((n0, xn))) if desc["kind"] == "H" else ((n0,), (xn,))
+            desc2 = dict(desc, nodes=tuple(desc["nodes"]) + (xn,), edges=tuple(desc["edges"]) + (ne,),
+                         weights=(tuple(desc["weights"]) + (5,)) if desc["weighted"] else None)
+            g = C.build(desc, detour=False)
+            for name, cls, call, nodes, edges in selections(desc, tier):
+                try:
+                    call(g)
+                except Exception:
+                    pass
+            try:
+                g.add_edge(ne, weight=5) if desc["weighted"] else g.add_edge(ne)
+            except Exception as e:
+                acc.violations.append(Violation("%s/second-call/exception" % desc["kind"], "add_edge raised %s: %s" % (type(e).__name__, e), dict(base, detour=detour, sel="second-call"), size=len(desc["edges"])))
+                g = None
+            for name, cls, call, nodes, edges in (selections(desc2, tier) if g is not None else ()):
+                acc.evaluations += 1
+                try:
+                    got = hview(call(g), disp)
+                except Exception as e:
+                    got = ("EXC", type(e).__name__, str(e)[:80])
+                if isinstance(nodes, tuple) and len(nodes) == 2 and nodes[0] == "ANYOF":
+                    wants = [expect(desc2, sorted(c, key=repr), [e for e in desc2["edges"] if enodes(desc2, e) <= c], disp) for c in nodes[1]]
+                else:
+                    wants = [expect(desc2, nodes, edges, disp)]
+                if got not in wants:
+                    acc.violations.append(Violation(
+                        "%s/%s/second-call" % (desc["kind"], cls),
+                        "%s after add_edge(%r) on the same object, %s: got %r, want %r" % (name, ne, C.show(desc), got, wants[0]),
+                        dict(base, detour=detour, sel="second-call:" + name), size=len(desc["edges"]) + len(desc["nodes"])))
         # extraction from an object whose hypergraph-level metadata dict was REPLACED by the user (no reserved keys in it)
         for cls2 in ("get_edges-subhypergraph",):
             g = C.build(desc, detour=detour)
